@@ -659,7 +659,9 @@ func c14Race(c *core.Ctx, b *c14Build) {
 	}
 	cmd := exec.Command(b.racep, strconv.Itoa(iters))
 	cmd.Env = append(os.Environ(), "GORACE=halt_on_error=0 exitcode=66")
+	stop := c.KeepAlive("race pass")
 	out, err := cmd.CombinedOutput()
+	stop()
 	c.Count("race_pass_iterations", int64(iters))
 	s := string(out)
 	if strings.Contains(s, "WARNING: DATA RACE") {
@@ -690,17 +692,28 @@ func c14Race(c *core.Ctx, b *c14Build) {
 func c14Run(c *core.Ctx) {
 	runID := strconv.Itoa(os.Getppid())
 	var b *c14Build
+	c.Cur("instrumented build")
+	stopKA := c.KeepAlive("instrumented build / waiting for it")
+	defer func() {
+		if stopKA != nil {
+			stopKA()
+		}
+	}()
 	if c.Shard == 0 {
 		t0 := time.Now()
 		b = c14Prepare(c, runID) // the other workers explore histories meanwhile and wait for the marker afterwards
 		c.SetMax("phase_ms:instrumented_build", time.Since(t0).Milliseconds())
 	}
+	stopKA()
+	stopKA = nil
 	t0 := time.Now()
 	c14Histories(c)
 	c.SetMax("phase_ms:histories", time.Since(t0).Milliseconds())
 	t0 = time.Now()
 	if c.Shard != 0 {
+		stop := c.KeepAlive("waiting for the instrumented build")
 		b = c14Prepare(c, runID)
+		stop()
 	}
 	c.SetMax("phase_ms:wait_for_instrumented_build", time.Since(t0).Milliseconds())
 	t0 = time.Now()
